@@ -12,7 +12,8 @@ Depth == atoi(IOEnv.DEPTH)
 EmitOn == "OUT" \in DOMAIN IOEnv
 Limits == IF IOEnv.LIMITS = "012" THEN { 0, 1, 2 } ELSE { 0, 1 }
 Endpoints == { "e1", "e2" }
-Tokens == { << >>, << 7, 9 >> }
+\* two tokens that differ only in length (both "zero" to anything that reads a token as a number)
+Tokens == { << >>, << 0 >> }
 Paths == { "a", "b/c" }
 \* notification rounds also name a path nobody registers that differs from a registered one only by
 \* what a normalisation would fold (a no-op in the specification: the registry is keyed by the exact string)
